@@ -419,6 +419,7 @@ func init() {
 			{Entry: "HarnessC06Rules", Args: []int64{1, 0}, Bound: "types of depth <= 1 (71) x every single loosening x 40 expression templates x other operand of 5 base types x both operand positions", Require: []string{"compared", "accepted-before"}},
 			{Entry: "HarnessC06Algebra", Args: []int64{2}, Bound: "any-assignability and merge-with-any for all 3305 types of depth <= 2", Require: []string{"compared"}},
 			{Entry: "HarnessC06Template", Bound: "template evaluation, bool, number and if: positions with a value of type any", Require: []string{"checked"}},
+			{Entry: "HarnessC06RulesNarrow", Args: []int64{2}, Bound: "types of depth <= 2 whose innermost types are any/number/string (about 860) x every single loosening x 16 deep expression templates", Require: []string{"compared", "accepted-before"}},
 		}
 		p.Thorough = append(append([]HRun{}, p.Quick...),
 			HRun{Entry: "HarnessC06Rules", Args: []int64{2, 1}, Bound: "types of depth <= 2 (3305) x every single loosening x 16 deep expression templates", Require: []string{"compared", "accepted-before"}},
